@@ -285,9 +285,13 @@ def decide(prop, tier, seed, jobs, meta, extra_results=None):
         if res.verified == 0 and not res.diags:
             tool_problems.append('%s: verus verified 0 functions (vacuous run)' % job.name)
 
+    kani_fail = []
     if extra_results:
         for er in extra_results:
-            tool_problems.extend(er.get('tool_problems', []))
+            if er.get('status') == 'FAILED' and (prop in er.get('props', []) or meta.get('all_props')):
+                kani_fail.append(er)
+            elif er.get('status') not in ('SUCCESSFUL', 'FAILED'):
+                tool_problems.append('kani harness %s did not complete (%s): %s' % (er.get('harness'), er.get('status'), er.get('output_tail', '')[-300:]))
 
     if meta.get('all_props'):
         # C19: the whole obligation set, in every configuration of the matrix
@@ -330,6 +334,18 @@ def decide(prop, tier, seed, jobs, meta, extra_results=None):
         lines.append('KNOWN-FINDING: property=%s %s [%s; %s; obligation %s]' % (prop, k['what'], k['id'], f.job.cfg.name, f.obligation()))
 
     replay_path = None
+    if kani_fail and not violations:
+        exit_code = 1
+        os.makedirs(REPLAY, exist_ok=True)
+        replay_path = os.path.join(REPLAY, '%s_%s_kani.json' % (prop, time.strftime('%Y%m%d_%H%M%S')))
+        with open(replay_path, 'w') as fh:
+            json.dump({'property': prop, 'note': 'bounded Kani harness failed on the real code (scratch copy of the current tree); '
+                       'the failed CBMC checks are listed; re-run: see cmd. no-failing-input-found (concrete playback not extracted)',
+                       'failed_obligations': [{'obligation': 'kani::' + k['harness'], 'configuration': 'kani', 'N': '-',
+                                               'failed_clause': '; '.join(k['failed_checks']), 'repo_location': k['what'],
+                                               'verifier_output': k['output_tail'], 'checker_cmd': k['cmd']} for k in kani_fail]}, fh, indent=1)
+        lines.append('VIOLATION property=%s replay=%s obligation=kani::%s (bounded: %s) no-failing-input-found'
+                     % (prop, replay_path, kani_fail[0]['harness'], kani_fail[0]['bound']))
     if violations:
         exit_code = 1
         os.makedirs(REPLAY, exist_ok=True)
@@ -352,6 +368,10 @@ def decide(prop, tier, seed, jobs, meta, extra_results=None):
             d['generated_file'] = f.job.gen.path
             d['checker_cmd'] = f.job.res.cmd
             payload['failed_obligations'].append(d)
+        for k in kani_fail:
+            payload['failed_obligations'].append({'obligation': 'kani::' + k['harness'], 'configuration': 'kani', 'N': '-',
+                                                  'failed_clause': '; '.join(k['failed_checks']), 'repo_location': k['what'],
+                                                  'verifier_output': k['output_tail'], 'checker_cmd': k['cmd']})
         with open(replay_path, 'w') as fh:
             json.dump(payload, fh, indent=1)
         first = payload['failed_obligations'][0]
@@ -401,11 +421,12 @@ def decide(prop, tier, seed, jobs, meta, extra_results=None):
         },
         'assumptions': meta.get('assumptions', []),
         'wall_s': round(wall, 2),
-        'violations': len(violations),
+        'violations': len(violations) + len(kani_fail),
     }
     evidence['coverage'].update(meta.get('coverage_extra', {}))
     if extra_results:
-        evidence['coverage']['other_backends'] = extra_results
+        evidence['coverage']['bounded_checks_not_counted_as_proved'] = [
+            {k: v for k, v in er.items() if k not in ('output_tail',)} for er in extra_results]
     with open(os.path.join(EVID, '%s.json' % prop), 'w') as fh:
         json.dump(evidence, fh, indent=1)
 
